@@ -202,6 +202,7 @@ static int compiler(const char *tool, int argc, char **argv) {
         const char *a = argv[i];
         if (!strcmp(a, "--version")) version = 1;
         else if ((!strcmp(a, "-?") || !strcmp(a, "/?")) && argc == 2) return 1;   /* MSVC probe */
+        else if (!strcmp(a, "-dumpmachine") && argc == 2) { printf("x86_64-linux-gnu\n"); return 0; }   /* cross probe */
         else if (!strcmp(a, "-c")) cflag = 1;
         else if (!strcmp(a, "-E")) Eflag = 1;
         else if (!strcmp(a, "-shared")) shared = 1;
